@@ -13,7 +13,7 @@ NOT_APPLICABLE = {
     'C18': 'privacy is a property of rendered text built inline in render functions from formatted strings; no contract on those functions is expressible with the installed verifiers.',
     'C20': 'schedule property over threads sharing parking_lot::RwLock<State>: Kani has no thread support and Verus reasons about locks only through its own vstd::rwlock permission types, which the real code does not use (rewriting onto them would be proving a model).',
 }
-for _p in ('C01','C02','C03','C04','C05','C06','C07','C08','C09','C10','C11','C12','C14','C15','C16','C19'):
+for _p in ('C01','C02','C05','C10','C11','C15','C16','C19'):
     NOT_APPLICABLE[_p] = 'check under construction in this session (see DESIGN.md section 3 for the planned contracts); not claimed until its obligations are discharged by bin/check'
 
 import re as _re
@@ -87,6 +87,52 @@ PROPS = {
         'kani': {'quick': ['k_split_contract', 'k_extobj_iter_contract', 'k_mpls_iter_contract', 'k_ExtensionsPacket_nopanic', 'k_MplsLabelStackPacket_nopanic']},
         'assumptions': [],
         'explanation': 'ICMP extension parsing',
+    },
+    'C03': {
+        'level': 'proof',
+        'technique': 'Verus contracts on recv_response / complete_probe / in_round / check_trace_id / validate with a whole-state frame; TracerState invariant',
+        'level_text': 'Strategy::recv_response is proved, for an abstract Network and any received response, to leave the whole TracerState (every slot, target_found, target_ttl, max_received_ttl, received_time) unchanged unless the response validates, carries this tracer\'s (or the zero) trace id, names a sequence issued in the current round and that probe is still Awaited; then exactly that slot becomes Complete. in_round is the 512-window, check_trace_id rejects foreign non-zero ids (two tracers with distinct non-zero ids: non-interference is this contract instantiated). advance_round moves the window forward or restarts at the initial sequence.',
+        'level_note': 'Trusted: shims (SystemTime, Duration), derive(Clone)/derive_more models, abstract Network trait with ghost observations. Not covered: that the CLI assigns distinct non-zero ids (pid + i can wrap to 0; iterator-adapter code in trippy-tui). Previous-round separation after a sequence wrap is decided under C07.',
+        'units': ['core_strategy'],
+        'assumptions': ['the usize round counter does not overflow (assume in Strategy::run, 2^64 rounds)'],
+        'explanation': 'response acceptance gate',
+    },
+    'C06': {
+        'level': 'proof',
+        'technique': 'Verus contract on send_request over a ghost send log of the abstract Network; step contracts of next_probe / reissue_probe / advance_round; target_ttl evolution in complete_probe',
+        'level_text': 'send_request is proved to hand probes to the network exactly when the policy written from the property allows (target not found in this round, ttl <= max_ttl, ttl <= target distance when known, else fewer than max_inflight hops beyond the farthest hop answered in this round, measured from first_ttl-1 when nothing has answered), each with the current ttl (re-issues keep it) and consecutive sequence numbers; next_probe uses ttl then increments it, reissue_probe reuses ttl-1, advance_round restarts at first_ttl.',
+        'level_note': 'Trusted: as C03. The order of calls inside Strategy::run (send before publish in every iteration) is read off the verified loop body, not stated as a temporal property.',
+        'units': ['core_strategy'],
+        'assumptions': [],
+        'explanation': 'probe scheduling discipline',
+    },
+    'C07': {
+        'level': 'proof',
+        'technique': 'Verus data-structure invariant on TracerState (sequence allocator + 512-slot buffer) preserved by every operation; separation lemmas',
+        'level_text': 'The invariant wf (initial <= round_sequence <= sequence, at most 512 sequences per round, round_sequence < max_sequence, hence sequence <= 65534, every issued slot holds a probe of this round with sequence round_sequence+i) is established by new and preserved by next_probe, reissue_probe, fail_probe, complete_probe, advance_round, send_request, recv_response, update_round; every buffer index and every u16/u8 operation in these functions is proved in range; an exhausted TCP round yields Error::InsufficientCapacity; lemmas: a sequence of the preceding round is not accepted in the current one.',
+        'level_note': 'Trusted: as C03. The Dublin/IPv6 payload slice bound in dispatch_udp_probe_raw is discharged in unit core_net (C11).',
+        'units': ['core_strategy'],
+        'assumptions': [],
+        'explanation': 'sequence allocator invariant',
+    },
+    'C08': {
+        'level': 'proof',
+        'technique': 'Verus contract on update_round / exceeds / publish_trace with the clock as an arbitrary value',
+        'level_text': 'For every value the clock can return, update_round publishes and advances the round exactly when duration > max, or target found and duration > min and more than grace since the last response; otherwise the state is unchanged. The published reason is TargetFound iff the target answered in the round. exceeds() is the saturating difference test.',
+        'level_note': 'Not applicable within C08: "never held open longer than max + one read timeout" and "next round starts at the instant of publication" are wall-time statements across loop iterations and blocking reads; contracts give only the step fact. Trusted: SystemTime/Duration shims (duration_since(..).unwrap_or_default() = saturating difference; Duration ordering).',
+        'units': ['core_strategy'],
+        'assumptions': [],
+        'not_applicable_parts': ['wall-time bounds across loop iterations (max + one read timeout; start of next round)'],
+        'explanation': 'round completion policy',
+    },
+    'C09': {
+        'level': 'proof',
+        'technique': 'Verus contracts on run (loop invariant on the round counter), finished, do_send, send_request (TCP re-issue loop with invariant and decreases), fail_probe, reissue_probe',
+        'level_text': 'finished is exactly round >= n; run\'s loop invariant keeps round <= n and success is returned only with round == n, every round increment being one publish_trace+advance_round (update_round contract), i.e. rounds 0..n-1; do_send turns Error::ProbeFailed into Ok with exactly that slot Failed and returns every other error unchanged; the TCP AddressInUse loop marks the abandoned slot Skipped and re-issues with the next sequence and the same ttl, and terminates (decreases 512 - round size); errors propagate through `?`.',
+        'level_note': 'Partial correctness: termination of run depends on wall time (exec_allows_no_decreases_clause). Not covered: TracerInner::run/handle_error writing the error through parking_lot::RwLock, ErrorMapper tables (Kani harness planned).',
+        'units': ['core_strategy'],
+        'assumptions': ['the usize round counter does not overflow (assume in Strategy::run)'],
+        'explanation': 'termination and failure semantics',
     },
     'C12': {
         'level': 'proof',
